@@ -9,7 +9,10 @@ def sh(cmd, **kw): return subprocess.run(cmd, shell=True, capture_output=True, t
 props = [json.loads(l) for l in open(os.path.join(HERE, 'properties.jsonl'))]
 EXTRA = {'rxsci/operators/scan.py': ['C12', 'C20'], 'rxsci/state/memory_store.py': ['C04', 'C05'], 'rxsci/framing/line.py': ['C18', 'C19'], 'rxsci/data/batch.py': ['C11', 'C20'],
          'rxsci/state/state_topology.py': ['C14'], 'rxsci/state/store.py': ['C14'], 'rxsci/operators/do_action.py': ['C01', 'C03'], 'rxsci/error/router.py': ['C13', 'C03'],
-         'rxsci/compression/z.py': ['C16', 'C19'], 'rxsci/container/parquet.py': ['C20'], 'rxsci/container/csv.py': ['C18'], 'rxsci/container/json.py': ['C19']}
+         'rxsci/compression/z.py': ['C16', 'C19'], 'rxsci/compression/zstd.py': ['C16', 'C19'], 'rxsci/io/file.py': ['C18', 'C19'], 'rxsci/data/codec.py': ['C17', 'C19'],
+         'rxsci/math/min.py': ['C12', 'C09', 'C01'], 'rxsci/math/max.py': ['C12', 'C09', 'C01'], 'rxsci/math/sum.py': ['C12', 'C09', 'C01'], 'rxsci/math/mean.py': ['C12', 'C09', 'C01'],
+         'rxsci/framing/length_prefix.py': ['C15'], 'rxsci/error/map.py': ['C13', 'C03'], 'rxsci/error/ignore.py': ['C13', 'C03'], 'rxsci/operators/distinct_until_changed.py': ['C10', 'C02'],
+         'rxsci/operators/distinct.py': ['C10', 'C02'], 'rxsci/data/lag.py': ['C10', 'C02'], 'rxsci/container/parquet.py': ['C20'], 'rxsci/container/csv.py': ['C18'], 'rxsci/container/json.py': ['C19']}
 def main():
     args = sys.argv[1:]
     assert sh(f'git -C {REPO} status --porcelain').stdout.strip() == ''
@@ -41,6 +44,10 @@ def main():
         for p in ud[:2]:
             print('       undecided:', p, res[p]['first_undecided'])
         rows.append({'id': hid, 'files': files, 'false_alarm': fa, 'crash': cr, 'undecided': ud, 'detail': res})
-    json.dump(rows, open(os.path.join(HERE, 'harmless', 'last_eval.json'), 'w'), indent=1)
+    path_ = os.path.join(HERE, 'harmless', 'last_eval.json')
+    try: prev = {r['id']: r for r in json.load(open(path_))}
+    except Exception: prev = {}
+    prev.update({r['id']: r for r in rows})           # partial runs update their own rows only
+    json.dump([prev[k] for k in sorted(prev)], open(path_, 'w'), indent=1)
 if __name__ == '__main__':
     main()
